@@ -228,7 +228,16 @@ class Ctx(object):
                             "rejected": summary[1], "problems_seen_without_spec": len(problems), "tlc_wall_s": round(r.wall, 1)})
         if trs:
             self.samples.append({"chain_events": [{"op": e["op"], "args": e["args"], "ok": e["ok"]} for e in trs[0][:4]]})
+        # a chain in which the specification already rejected an earlier call is not examined any further: what follows
+        # operates on a value the specification does not have
+        first_rejected = {}
+        for tid, line, why, detail in rej:
+            m0 = metas[int(tid) - 1][int(line) - 1]
+            if "_t" in m0:
+                first_rejected[m0["_t"]] = min(first_rejected.get(m0["_t"], 10 ** 9), m0.get("_step", int(line)))
         for m, why in problems:
+            if "_t" in m and first_rejected.get(m["_t"], 10 ** 9) < m.get("_step", 0):
+                continue
             if mine(m, why):
                 self.report(m, m.get("worker_case"), None, why, phase=name)
         for tid, line, why, detail in rej:
